@@ -193,9 +193,11 @@ def _solve(idx):
     s.set("timeout", Z3_TIMEOUT_MS)
     for h in ob.hyps:
         s.add(h)
-    use_axioms = bool(extra_axioms) and _mentions_decl(list(ob.hyps) + [ob.goal], "u_sum")
-    if use_axioms:
-        for a in extra_axioms:
+    plain_axioms, sum_axioms = extra_axioms if isinstance(extra_axioms, tuple) else (extra_axioms, [])
+    for a in plain_axioms:
+        s.add(a)
+    if sum_axioms and _mentions_decl(list(ob.hyps) + [ob.goal], "u_sum"):
+        for a in sum_axioms:
             s.add(a)
     goal, sks = skolemize_goal(ob.goal)
     insts = manual_instances(ob.hyps, goal, sks)
@@ -220,7 +222,7 @@ def _solve(idx):
     # violates the property on it.
     s2 = z3.Solver()
     s2.set("timeout", Z3_TIMEOUT_MS // 2)
-    for h in ob.hyps:
+    for h in list(ob.hyps) + list(plain_axioms):
         if not _has_quantifier(h):
             s2.add(h)
     for inst in insts:
@@ -330,7 +332,8 @@ def discharge(obligations, extra_axioms=(), leaves=None, workers=None):
     global _OBS
     if not obligations:
         return
-    _OBS = [(ob, list(extra_axioms), leaves if not isinstance(leaves, list) else leaves[i])
+    _OBS = [(ob, extra_axioms if isinstance(extra_axioms, tuple) else list(extra_axioms),
+             leaves if not isinstance(leaves, list) else leaves[i])
             for i, ob in enumerate(obligations)]
     workers = workers or min(16, max(1, len(obligations)))
     results = []
